@@ -477,3 +477,36 @@ def failing_resolution_facts():
         if now != want:
             bad.append((name, kn, want, now))
     return bad
+
+
+# ----- sessions: several inputs evaluated one after the other in ONE environment of ONE process
+def _session(texts):
+    from ka.eval import EvalEnvironment
+    env = EvalEnvironment()
+    return [observe(t, env) for t in texts]
+
+
+def run_sessions(rundir, sessions, limit=20.0):
+    """sessions: list of lists of Ka inputs; returns per session the list of observations"""
+    return run_impl(_session, sessions, rundir, limit=limit, chunksize=1)
+
+
+def expect_sessions(rep, rundir, prop, items, kind="session-expectation"):
+    """items: (inputs, expected canonical value of the LAST input or a predicate on its observation, what).
+    Reports a violation of `prop` when the last observation differs."""
+    obs = run_sessions(rundir, [list(i[0]) for i in items])
+    n = 0
+    for (inputs, want, what), os_ in zip(items, obs):
+        n += 1
+        if isinstance(os_, dict) and os_.get("hung"):
+            rep.violation(dict(kind=kind, what=what[:40]), "%s fails: %s did not return" % (prop, " ;; ".join(inputs)), dict(text=" ;; ".join(inputs)))
+            continue
+        last = os_[-1]
+        got = last.get("value") if last.get("status") == 0 else ("E:status%r/%s" % (last.get("status"), last.get("escaped")))
+        ok = want(last) if callable(want) else got == want
+        if not ok:
+            rep.violation(dict(kind=kind, what=what[:40]),
+                          "%s fails (%s): after %s the last input gives %s (displayed %r), expected %s"
+                          % (prop, what, " ;; ".join(inputs), got, (last.get("out") or "").strip()[:60], "the stated relation" if callable(want) else want),
+                          dict(text=" ;; ".join(inputs), inputs=list(inputs), impl=got, expected=None if callable(want) else want))
+    return n
